@@ -994,6 +994,37 @@ class Table(Vector):
 	def __pow__(self, other):
 		return self._table_elementwise_operation(other, operator.pow, '__pow__', '**')
 
+	def _table_reflected_scalar_operation(self, other, op_func, fallback):
+		"""
+		scalar <op> table: the same operation column by column, column names kept
+		(as table <op> scalar does). Non-scalar left operands keep the generic path.
+		"""
+		if isinstance(other, Iterable) and not isinstance(other, (str, bytes, bytearray)):
+			return fallback(other)
+		result_cols = tuple(op_func(other, col) for col in self.cols())
+		for orig_col, result_col in zip(self.cols(), result_cols):
+			result_col._name = orig_col._name
+			result_col._wild = orig_col._wild
+		return Table(result_cols)
+
+	def __radd__(self, other):
+		return self._table_reflected_scalar_operation(other, operator.add, super().__radd__)
+
+	def __rsub__(self, other):
+		return self._table_reflected_scalar_operation(other, operator.sub, super().__rsub__)
+
+	def __rtruediv__(self, other):
+		return self._table_reflected_scalar_operation(other, operator.truediv, super().__rtruediv__)
+
+	def __rfloordiv__(self, other):
+		return self._table_reflected_scalar_operation(other, operator.floordiv, super().__rfloordiv__)
+
+	def __rmod__(self, other):
+		return self._table_reflected_scalar_operation(other, operator.mod, super().__rmod__)
+
+	def __rpow__(self, other):
+		return self._table_reflected_scalar_operation(other, operator.pow, super().__rpow__)
+
 	@staticmethod
 	def _validate_key_tuple_hashable(key_tuple, key_cols, row_idx):
 		"""
